@@ -92,8 +92,37 @@ pub fn rounds(seed: u64, idx: u64) -> Scenario {
     sc
 }
 
+/// pools as large as deployments configure them (the shipped default is 200 threads) on simulated
+/// hosts with one to four processors: all N workers have to exist, so N tasks that wait for one
+/// another (a rendezvous of N) must all be inside at the same time
+pub fn large_pools(seed: u64, idx: u64) -> Scenario {
+    let mut rng = rng_for(seed, "C07", "large_pools", idx);
+    let mut sc = Scenario::base("C07", "large_pools", idx);
+    sc.engine = Engine::Pool;
+    sc.sched = pick_sched(&mut rng);
+    let size = *rng.pick(&[33usize, 65, 100, 129, 193, 200, 200, 257, 300]);
+    let mut tasks: Vec<TaskKind> = (0..size).map(|_| TaskKind::Rendezvous).collect();
+    for _ in 0..rng.range(0, 8) {
+        tasks.push(TaskKind::Instant);
+    }
+    if rng.chance(1, 2) {
+        rng.shuffle(&mut tasks);
+    }
+    sc.workers = size;
+    sc.pool = Some(PoolSc { size, submitters: rng.range(1, 2), tasks, drop_after_submit: false });
+    sc
+}
+
 pub fn plan(tier: Tier, seed: u64) -> Vec<Campaign> {
     vec![Campaign {
+        name: "large_pools",
+        budget: match tier {
+            Tier::Quick => Budget::Count(32),
+            Tier::Thorough => Budget::Time(1),
+        },
+        exhaustive: false,
+        gen: Box::new(move |i| large_pools(seed, i)),
+    }, Campaign {
         name: "rounds",
         budget: match tier {
             Tier::Quick => Budget::Count(16),
